@@ -41,6 +41,13 @@ var errDialRefused = errors.New("dsim: dial refused")
 // errTransientWrite: one write is refused (e.g. a send timeout), the connection stays usable.
 var errTransientWrite = errors.New("dsim: transient write error")
 
+// LateErrorNextWrites makes the next n client writes report an error although the frame is delivered.
+func (l *Link) LateErrorNextWrites(n int) {
+	l.net.s.mu.Lock()
+	l.lateErrors += n
+	l.net.s.mu.Unlock()
+}
+
 // ParkedWriters reports how many writes are parked in the link right now.
 func (l *Link) ParkedWriters() int {
 	l.net.s.mu.Lock()
@@ -84,6 +91,7 @@ type Link struct {
 	stalled      bool          // slow link: Write blocks until the scheduler resumes it
 	failWrites   int           // the next n writes fail with a transient error (the link stays up)
 	parked       int           // writers currently parked in Write
+	lateErrors   int           // the next n writes are delivered but report an error
 	room         chan struct{} // closed when a blocked Write may try again
 	dieOnConnect bool          // handshake-cut fault
 
@@ -253,6 +261,14 @@ func (l *Link) Write(b []byte) error {
 		}
 	}
 	l.c2b = append(l.c2b, cframe{append([]byte(nil), b...), s.Now()})
+	if l.lateErrors > 0 {
+		// the frame has gone out, but the write reports an error (e.g. a deadline that fired while the
+		// last bytes were being flushed); the link stays up
+		l.lateErrors--
+		s.stats["fault.write-error-after-delivery"]++
+		s.mu.Unlock()
+		return errTransientWrite
+	}
 	inline := l.net.Inline || (l.net.InlineHandshake && (l.bc == nil || !l.bc.Connected))
 	s.mu.Unlock()
 	if inline {
